@@ -68,7 +68,7 @@ func selectTie(r *Result, dp *DriverPool, rng *rand.Rand, n int) error {
 		r.Add("select_proposals", nx)
 		// HashTable4: the candidate distances themselves, recomputed by the Lean hash-table model (hash chains,
 		// rolling hash) from the bytes discarded so far, at a few sampled proposals
-		if alg == lzma.HashTable4 {
+		{
 			pos := 0 // bytes discarded so far
 			var look []byte
 			consumed := 0
@@ -83,6 +83,24 @@ func selectTie(r *Result, dp *DriverPool, rng *rand.Rand, n int) error {
 					var k int
 					fmt.Sscanf(c, "d:%d", &k)
 					pos += k
+				case strings.HasPrefix(c, "nxb:") && rng.Intn(60) == 0:
+					f := strings.Split(c, ":")
+					hi := consumed
+					if hi > pos+273 {
+						hi = pos + 273
+					}
+					rep, err := dp.Ask(fmt.Sprintf("btcands %d %s %s", dictCap, hxe(data[:pos]), hxe(data[pos:hi])))
+					if err != nil {
+						return err
+					}
+					// the real lists are cut at 40, the check budget is 32: compare as delivered
+					want := f[2] + ":" + f[3] + ":" + f[4]
+					r.Inc("bintree_candidate_queries")
+					if strings.TrimSpace(rep) != want {
+						r.Violate("broken-correspondence", "bintree-model candidates", cs,
+							fmt.Sprintf("at position %d the real binary tree delivers candidates [%s], the Lean model of the tree [%s]", pos, truncate(want, 200), truncate(strings.TrimSpace(rep), 200)))
+						break
+					}
 				case strings.HasPrefix(c, "nxh:") && rng.Intn(60) == 0:
 					f := strings.Split(c, ":")
 					hi := consumed
